@@ -1,8 +1,1327 @@
-//! C04 — not implemented yet
-use vcore::{Args, Check};
+//! C04 — certificates are tamper-evident and survive the wire unchanged.
+//!
+//! (i)   `single-field`: a certificate generated field by field and exactly one field changed to a different value
+//!       (compared on a canonical form computed by the harness) must get a different `try_compute_hash()`.
+//! (ii)  `protocol-message-pairs`: two protocol messages over the honest value grammar related by a boundary move /
+//!       drop / add / swap / re-key: different part maps ⇒ different digests.
+//! (iii) `wire-roundtrip`: Certificate → CertificateMessage → JSON text → re-serialised text (field order, whitespace,
+//!       number formatting, string escapes, optional fields absent / null / explicit default) → CertificateMessage →
+//!       Certificate keeps the hash (stored and recomputed), the signed message and the verdicts of the real
+//!       verifier's checks (`verify_genesis_certificate` / `verify_standard_certificate`) and of harness-side
+//!       integrity bits.
+
+#[path = "certs.rs"]
+mod certs;
+
+use std::collections::BTreeMap;
+use std::sync::Arc;
+
+use async_trait::async_trait;
+use certs::*;
+use mithril_common::certificate_chain::{CertificateRetriever, CertificateRetrieverError, CertificateVerifier, MithrilCertificateVerifier};
+use mithril_common::crypto_helper::GenesisVerifier;
+use mithril_common::entities::{Certificate, CertificateSignature, ProtocolMessage, ProtocolMessagePartKey};
+use mithril_common::messages::CertificateMessage;
+use proptest::prelude::*;
+use serde::{Deserialize, Serialize};
+use serde_json::Value;
+use vcore::{Args, Check, Report, catch, mix, pick_index};
+
+pub const KEY_MSD_CSD: &str = "hash-collision:signed-entity-discriminant:MSD/CSD";
+pub const KEY_CTX_CDB: &str = "hash-collision:signed-entity-discriminant:CTx/CDb";
+
+// ------------------------------------------------------------------------------------------------------------------
+// value generators
+// ------------------------------------------------------------------------------------------------------------------
+
+#[derive(Clone, Debug, Default)]
+struct Strings {
+    avks: Vec<String>,
+    msigs: Vec<String>,
+    gsigs: Vec<String>,
+}
+
+fn small_string() -> impl Strategy<Value = String> {
+    prop_oneof![
+        3 => prop::sample::select(vec!["", "a", "ab", "abc", "b", "mainnet", "preprod", "testnet", "testnet2", "0.1.0", "0.1.10", "0.1", "1", "é", "\"\\\n\u{0}", "\u{1F600}x", "/"]).prop_map(String::from),
+        2 => "[ -~]{0,12}",
+        1 => "\\PC{0,6}",
+    ]
+}
+
+fn hashlike() -> impl Strategy<Value = String> {
+    prop_oneof![
+        3 => any::<u64>().prop_map(hex_digest),
+        1 => Just(String::new()),
+        1 => small_string(),
+    ]
+}
+
+fn ts_strategy() -> impl Strategy<Value = i64> {
+    prop_oneof![
+        3 => (0i64..4_000_000_000, 0i64..1_000_000_000).prop_map(|(s, n)| s * 1_000_000_000 + n),
+        2 => any::<i64>(),
+        1 => prop::sample::select(vec![i64::MIN, i64::MIN + 1, i64::MAX, i64::MAX - 1, 0, 1, -1, 999_999_999, 1_000_000_000, -999_999_999, -1_000_000_000, -1_000_000_001, 1_707_743_507_012_304_300]),
+    ]
+}
+
+/// phi in (0, 1] as IEEE bits: short decimals, uniform, exact fixed-point ties and their neighbours, tiny values, 1
+fn phi_strategy() -> impl Strategy<Value = u64> {
+    prop_oneof![
+        3 => (1u32..=10_000).prop_map(|n| n as f64 / 10_000.0),
+        2 => any::<u64>().prop_map(|x| (((x >> 11) as f64) / 9_007_199_254_740_992.0).max(f64::MIN_POSITIVE)),
+        2 => (0u32..(1 << 24), -1i8..=1).prop_map(|(j, d)| {
+            let tie = (2.0 * j as f64 + 1.0) / 33_554_432.0;
+            match d { -1 => tie.next_down(), 1 => tie.next_up(), _ => tie }
+        }),
+        1 => (1u32..=(1 << 24)).prop_map(|j| j as f64 / 16_777_216.0),
+        1 => prop::sample::select(vec![1.0f64, f64::MIN_POSITIVE, 1e-9, 2.9e-8, 0.2, 0.65, 0.999_999_999_999_999_9]),
+    ]
+    .prop_map(|p: f64| if p > 0.0 && p <= 1.0 { p.to_bits() } else { 1.0f64.to_bits() })
+}
+
+fn party_strategy() -> impl Strategy<Value = (String, u64)> {
+    (
+        prop_oneof![
+            2 => prop::sample::select(vec!["pool1abc", "pool1abc1", "pool1", "pool", "1", "12", "", "é"]).prop_map(String::from),
+            1 => "[a-z0-9]{0,10}",
+        ],
+        u64_interesting(),
+    )
+}
+
+#[derive(Clone, Copy, PartialEq, Eq, Debug)]
+enum Grammar {
+    Digest,
+    Decimal,
+    HexKey,
+}
+
+fn grammar_of(key: u8) -> Grammar {
+    match ALL_KEYS[key as usize % ALL_KEYS.len()] {
+        ProtocolMessagePartKey::CurrentEpoch
+        | ProtocolMessagePartKey::LatestBlockNumber
+        | ProtocolMessagePartKey::CardanoBlocksTransactionsBlockNumberOffset
+        | ProtocolMessagePartKey::CardanoStakeDistributionEpoch => Grammar::Decimal,
+        ProtocolMessagePartKey::NextAggregateVerificationKey | ProtocolMessagePartKey::NextSnarkAggregateVerificationKey => Grammar::HexKey,
+        _ => Grammar::Digest,
+    }
+}
+
+fn is_hex(s: &str) -> bool {
+    !s.is_empty() && s.len() % 2 == 0 && s.bytes().all(|b| b.is_ascii_digit() || (b'a'..=b'f').contains(&b))
+}
+
+/// the honest value grammar: lower-case hex of a non-empty byte string, or a canonical decimal u64
+fn well_formed(key: u8, v: &str) -> bool {
+    match grammar_of(key) {
+        Grammar::Digest | Grammar::HexKey => is_hex(v),
+        Grammar::Decimal => v.parse::<u64>().map(|n| n.to_string() == v).unwrap_or(false),
+    }
+}
+
+fn hex_bytes(len: impl Strategy<Value = usize>) -> impl Strategy<Value = String> {
+    (len, any::<u64>()).prop_map(|(n, seed)| {
+        let mut out = String::new();
+        let mut i = 0u64;
+        while out.len() < 2 * n {
+            out.push_str(&hex_digest(mix(seed, i)));
+            i += 1;
+        }
+        out.truncate(2 * n);
+        out
+    })
+}
+
+fn part_value(key: u8, pool: Arc<Strings>) -> BoxedStrategy<String> {
+    match grammar_of(key) {
+        Grammar::Decimal => u64_interesting().prop_map(|n| n.to_string()).boxed(),
+        Grammar::Digest => prop_oneof![4 => hex_bytes(Just(32usize)), 1 => hex_bytes(1usize..40)].boxed(),
+        Grammar::HexKey => {
+            if ALL_KEYS[key as usize] == ProtocolMessagePartKey::NextAggregateVerificationKey && !pool.avks.is_empty() {
+                prop_oneof![
+                    2 => prop::sample::select(pool.avks.clone()),
+                    1 => (any::<u64>(), 1u64..50, u64_interesting()).prop_map(|(r, n, t)| synthetic_avk(r, n, t)),
+                ]
+                .boxed()
+            } else {
+                hex_bytes(40usize..100).boxed()
+            }
+        }
+    }
+}
+
+fn parts_strategy(pool: Arc<Strings>) -> impl Strategy<Value = Vec<(u8, String)>> {
+    let per_key: Vec<BoxedStrategy<Option<(u8, String)>>> = (0..ALL_KEYS.len() as u8)
+        .map(|k| {
+            let pool = pool.clone();
+            prop::option::weighted(0.4, part_value(k, pool)).prop_map(move |v| v.map(|v| (k, v))).boxed()
+        })
+        .collect();
+    per_key.prop_map(|v| v.into_iter().flatten().collect())
+}
+
+fn avk_strategy(pool: Arc<Strings>) -> impl Strategy<Value = String> {
+    prop_oneof![
+        2 => prop::sample::select(pool.avks.clone()),
+        1 => (any::<u64>(), u64_interesting(), u64_interesting()).prop_map(|(r, n, t)| synthetic_avk(r, n, t)),
+    ]
+}
+
+fn gsig_strategy(pool: Arc<Strings>) -> impl Strategy<Value = String> {
+    prop_oneof![1 => prop::sample::select(pool.gsigs.clone()), 1 => hex_bytes(Just(64usize))]
+}
+
+fn sig_strategy(pool: Arc<Strings>) -> impl Strategy<Value = SigSpec> {
+    prop_oneof![
+        1 => gsig_strategy(pool.clone()).prop_map(SigSpec::Genesis),
+        3 => (entity_strategy(), prop::sample::select(pool.msigs.clone())).prop_map(|(e, s)| SigSpec::Multi(e, s)),
+    ]
+}
+
+fn cert_spec_strategy(pool: Arc<Strings>) -> impl Strategy<Value = CertSpec> {
+    (
+        (hashlike(), hashlike(), u64_interesting(), small_string(), small_string()),
+        (u64_interesting(), u64_interesting(), phi_strategy(), ts_strategy(), ts_strategy()),
+        prop::collection::vec(party_strategy(), 0..=6),
+        parts_strategy(pool.clone()),
+        prop_oneof![3 => Just(None), 1 => any::<u64>().prop_map(|s| Some(hex_digest(s))), 1 => small_string().prop_map(Some)],
+        avk_strategy(pool.clone()),
+        sig_strategy(pool),
+    )
+        .prop_map(|((hash, previous_hash, epoch, network, version), (k, m, phi_bits, initiated_ns, sealed_ns), signers, parts, signed_message, avk, sig)| CertSpec {
+            hash,
+            previous_hash,
+            epoch,
+            network,
+            version,
+            params: PSpec { k, m, phi_bits },
+            initiated_ns,
+            sealed_ns,
+            signers,
+            parts,
+            signed_message,
+            avk,
+            sig,
+        })
+}
+
+// ------------------------------------------------------------------------------------------------------------------
+// single-field changes
+// ------------------------------------------------------------------------------------------------------------------
+
+#[derive(Clone, Debug, Serialize, Deserialize)]
+pub enum StrEdit {
+    Set(String),
+    Append(String),
+    Prepend(String),
+    DropLast,
+}
+
+#[derive(Clone, Debug, Serialize, Deserialize)]
+pub enum NumEdit {
+    Set(u64),
+    Add(u64),
+    FlipBit(u8),
+}
+
+#[derive(Clone, Debug, Serialize, Deserialize)]
+pub enum TsEdit {
+    Set(i64),
+    Add(i64),
+}
+
+#[derive(Clone, Debug, Serialize, Deserialize)]
+pub enum PhiEdit {
+    SetBits(u64),
+    /// ± n steps at the fixed-point precision
+    FixedStep(i32),
+    /// the neighbouring f64 (up / down), normally equal at the fixed-point precision
+    Nudge(bool),
+}
+
+#[derive(Clone, Debug, Serialize, Deserialize)]
+pub enum EntityEdit {
+    /// same numbers, another variant (padding with `pad`)
+    Variant { v: u8, pad: u64 },
+    Number { idx: u8, e: NumEdit },
+    Set(EntitySpec),
+}
+
+#[derive(Clone, Debug, Serialize, Deserialize)]
+pub enum Change {
+    PreviousHash(StrEdit),
+    Epoch(NumEdit),
+    Network(StrEdit),
+    Version(StrEdit),
+    K(NumEdit),
+    M(NumEdit),
+    Phi(PhiEdit),
+    InitiatedAt(TsEdit),
+    SealedAt(TsEdit),
+    SignerAdd { at: u16, id: String, stake: u64 },
+    SignerRemove { at: u16 },
+    SignerId { at: u16, e: StrEdit },
+    SignerStake { at: u16, e: NumEdit },
+    SignerSwap { a: u16, b: u16 },
+    PartSet { key: u8, value: String },
+    PartEdit { at: u16, e: StrEdit },
+    PartRemove { at: u16 },
+    PartRekey { at: u16, key: u8 },
+    SignedMessage(StrEdit),
+    Avk(String),
+    Entity(EntityEdit),
+    MultiSig(String),
+    GenesisSig(String),
+    ToGenesis(String),
+    ToMulti(EntitySpec, String),
+}
+
+fn str_edit() -> impl Strategy<Value = StrEdit> {
+    prop_oneof![
+        2 => small_string().prop_map(StrEdit::Set),
+        1 => any::<u64>().prop_map(|s| StrEdit::Set(hex_digest(s))),
+        2 => "[ -~]{1,3}".prop_map(StrEdit::Append),
+        1 => "[ -~]{1,3}".prop_map(StrEdit::Prepend),
+        1 => Just(StrEdit::DropLast),
+    ]
+}
+
+fn num_edit() -> impl Strategy<Value = NumEdit> {
+    prop_oneof![2 => u64_interesting().prop_map(NumEdit::Set), 2 => prop_oneof![Just(1u64), Just(u64::MAX), 1u64..300, any::<u64>()].prop_map(NumEdit::Add), 1 => (0u8..64).prop_map(NumEdit::FlipBit)]
+}
+
+fn ts_edit() -> impl Strategy<Value = TsEdit> {
+    prop_oneof![
+        2 => ts_strategy().prop_map(TsEdit::Set),
+        // sub-second moves (the second stays the same most of the time), whole seconds, anything
+        3 => prop_oneof![Just(1i64), Just(-1i64), -999_999_999i64..=999_999_999, Just(1_000_000_000i64), any::<i64>()].prop_map(TsEdit::Add),
+    ]
+}
+
+fn change_strategy(pool: Arc<Strings>) -> impl Strategy<Value = Change> {
+    let p = pool.clone();
+    let arms: Vec<(u32, BoxedStrategy<Change>)> = vec![
+        (1, str_edit().prop_map(Change::PreviousHash).boxed()),
+        (1, num_edit().prop_map(Change::Epoch).boxed()),
+        (1, str_edit().prop_map(Change::Network).boxed()),
+        (1, str_edit().prop_map(Change::Version).boxed()),
+        (1, num_edit().prop_map(Change::K).boxed()),
+        (1, num_edit().prop_map(Change::M).boxed()),
+        (
+            1,
+            prop_oneof![
+                2 => phi_strategy().prop_map(PhiEdit::SetBits),
+                2 => prop_oneof![Just(1i32), Just(-1i32), -1000i32..1000].prop_map(PhiEdit::FixedStep),
+                1 => any::<bool>().prop_map(PhiEdit::Nudge),
+            ]
+            .prop_map(Change::Phi)
+            .boxed(),
+        ),
+        (1, ts_edit().prop_map(Change::InitiatedAt).boxed()),
+        (1, ts_edit().prop_map(Change::SealedAt).boxed()),
+        (1, (any::<u16>(), party_strategy()).prop_map(|(at, (id, stake))| Change::SignerAdd { at, id, stake }).boxed()),
+        (1, any::<u16>().prop_map(|at| Change::SignerRemove { at }).boxed()),
+        (1, (any::<u16>(), str_edit()).prop_map(|(at, e)| Change::SignerId { at, e }).boxed()),
+        (1, (any::<u16>(), num_edit()).prop_map(|(at, e)| Change::SignerStake { at, e }).boxed()),
+        (1, (any::<u16>(), any::<u16>()).prop_map(|(a, b)| Change::SignerSwap { a, b }).boxed()),
+        (1, (0u8..ALL_KEYS.len() as u8).prop_flat_map(move |key| part_value(key, p.clone()).prop_map(move |value| Change::PartSet { key, value })).boxed()),
+        (1, (any::<u16>(), str_edit()).prop_map(|(at, e)| Change::PartEdit { at, e }).boxed()),
+        (1, any::<u16>().prop_map(|at| Change::PartRemove { at }).boxed()),
+        (1, (any::<u16>(), 0u8..ALL_KEYS.len() as u8).prop_map(|(at, key)| Change::PartRekey { at, key }).boxed()),
+        (1, str_edit().prop_map(Change::SignedMessage).boxed()),
+        (1, avk_strategy(pool.clone()).prop_map(Change::Avk).boxed()),
+        (
+            3,
+            prop_oneof![
+                3 => (0u8..5, u64_interesting()).prop_map(|(v, pad)| EntityEdit::Variant { v, pad }),
+                1 => (0u8..3, num_edit()).prop_map(|(idx, e)| EntityEdit::Number { idx, e }),
+                1 => entity_strategy().prop_map(EntityEdit::Set),
+            ]
+            .prop_map(Change::Entity)
+            .boxed(),
+        ),
+        (1, prop::sample::select(pool.msigs.clone()).prop_map(Change::MultiSig).boxed()),
+        (1, gsig_strategy(pool.clone()).prop_map(Change::GenesisSig).boxed()),
+        (1, gsig_strategy(pool.clone()).prop_map(Change::ToGenesis).boxed()),
+        (1, (entity_strategy(), prop::sample::select(pool.msigs.clone())).prop_map(|(e, s)| Change::ToMulti(e, s)).boxed()),
+    ];
+    prop::strategy::Union::new_weighted(arms)
+}
+
+fn edit_str(s: &str, e: &StrEdit) -> String {
+    match e {
+        StrEdit::Set(v) => v.clone(),
+        StrEdit::Append(v) => format!("{s}{v}"),
+        StrEdit::Prepend(v) => format!("{v}{s}"),
+        StrEdit::DropLast => {
+            let mut t = s.to_string();
+            if t.pop().is_none() {
+                t.push('x');
+            }
+            t
+        }
+    }
+}
+
+fn edit_num(n: u64, e: &NumEdit) -> u64 {
+    match e {
+        NumEdit::Set(v) => *v,
+        NumEdit::Add(v) => n.wrapping_add(*v),
+        NumEdit::FlipBit(b) => n ^ (1u64 << (b % 64)),
+    }
+}
+
+fn edit_ts(n: i64, e: &TsEdit) -> i64 {
+    match e {
+        TsEdit::Set(v) => *v,
+        TsEdit::Add(v) => n.wrapping_add(*v),
+    }
+}
+
+fn change_name(c: &Change) -> String {
+    let s = format!("{c:?}");
+    s.split([' ', '{', '(']).next().unwrap_or("").to_string()
+}
+
+/// apply the change (total: a change that does not fit the base falls back to a neighbouring one)
+fn apply(base: &CertSpec, c: &Change) -> CertSpec {
+    let mut s = base.clone();
+    // a part change must not drag the derived signed message along: exactly ONE field changes
+    let freeze_signed_message = |s: &mut CertSpec| {
+        if s.signed_message.is_none() {
+            s.signed_message = Some(base.effective_signed_message());
+        }
+    };
+    match c {
+        Change::PreviousHash(e) => s.previous_hash = edit_str(&s.previous_hash, e),
+        Change::Epoch(e) => s.epoch = edit_num(s.epoch, e),
+        Change::Network(e) => s.network = edit_str(&s.network, e),
+        Change::Version(e) => s.version = edit_str(&s.version, e),
+        Change::K(e) => s.params.k = edit_num(s.params.k, e),
+        Change::M(e) => s.params.m = edit_num(s.params.m, e),
+        Change::Phi(e) => {
+            let phi = s.params.phi();
+            let new = match e {
+                PhiEdit::SetBits(b) => f64::from_bits(*b),
+                PhiEdit::FixedStep(d) => {
+                    let f = phi_fixed(phi).unwrap_or(0) as i64;
+                    let mut g = (f + *d as i64).clamp(0, 1 << 24);
+                    if g == f {
+                        g = if f > 0 { f - 1 } else { f + 1 };
+                    }
+                    g as f64 / 16_777_216.0
+                }
+                PhiEdit::Nudge(up) => {
+                    let n = if *up { phi.next_up() } else { phi.next_down() };
+                    if n > 0.0 && n <= 1.0 { n } else { phi.next_down() }
+                }
+            };
+            s.params.phi_bits = new.to_bits();
+        }
+        Change::InitiatedAt(e) => s.initiated_ns = edit_ts(s.initiated_ns, e),
+        Change::SealedAt(e) => s.sealed_ns = edit_ts(s.sealed_ns, e),
+        Change::SignerAdd { at, id, stake } => {
+            let i = pick_index(*at, s.signers.len() + 1);
+            s.signers.insert(i, (id.clone(), *stake));
+        }
+        Change::SignerRemove { at } => {
+            if s.signers.is_empty() {
+                s.signers.push(("pool1".into(), 1));
+            } else {
+                let i = pick_index(*at, s.signers.len());
+                s.signers.remove(i);
+            }
+        }
+        Change::SignerId { at, e } => {
+            if s.signers.is_empty() {
+                s.signers.push(("pool1".into(), 1));
+            } else {
+                let i = pick_index(*at, s.signers.len());
+                s.signers[i].0 = edit_str(&s.signers[i].0, e);
+            }
+        }
+        Change::SignerStake { at, e } => {
+            if s.signers.is_empty() {
+                s.signers.push(("pool1".into(), 1));
+            } else {
+                let i = pick_index(*at, s.signers.len());
+                s.signers[i].1 = edit_num(s.signers[i].1, e);
+            }
+        }
+        Change::SignerSwap { a, b } => {
+            if s.signers.len() < 2 {
+                s.signers.push(("pool2".into(), 2));
+            } else {
+                let i = pick_index(*a, s.signers.len());
+                let j = pick_index(*b, s.signers.len());
+                s.signers.swap(i, j);
+            }
+        }
+        Change::PartSet { key, value } => {
+            freeze_signed_message(&mut s);
+            s.parts.retain(|(k, _)| k != key);
+            s.parts.push((*key, value.clone()));
+        }
+        Change::PartEdit { at, e } => {
+            freeze_signed_message(&mut s);
+            if s.parts.is_empty() {
+                s.parts.push((0, "00".into()));
+            } else {
+                let i = pick_index(*at, s.parts.len());
+                s.parts[i].1 = edit_str(&s.parts[i].1, e);
+            }
+        }
+        Change::PartRemove { at } => {
+            freeze_signed_message(&mut s);
+            if s.parts.is_empty() {
+                s.parts.push((0, "00".into()));
+            } else {
+                let i = pick_index(*at, s.parts.len());
+                s.parts.remove(i);
+            }
+        }
+        Change::PartRekey { at, key } => {
+            freeze_signed_message(&mut s);
+            if s.parts.is_empty() {
+                s.parts.push((*key, "00".into()));
+            } else {
+                let i = pick_index(*at, s.parts.len());
+                let v = s.parts[i].1.clone();
+                s.parts.remove(i);
+                s.parts.retain(|(k, _)| k != key);
+                s.parts.push((*key, v));
+            }
+        }
+        Change::SignedMessage(e) => s.signed_message = Some(edit_str(&base.effective_signed_message(), e)),
+        Change::Avk(a) => s.avk = a.clone(),
+        Change::Entity(e) => {
+            s.sig = match &s.sig {
+                SigSpec::Multi(old, sig) => {
+                    let new = match e {
+                        EntityEdit::Variant { v, pad } => old.with_variant(*v, *pad),
+                        EntityEdit::Number { idx, e } => {
+                            let mut n = old.numbers();
+                            let i = *idx as usize % n.len();
+                            n[i] = edit_num(n[i], e);
+                            n.resize(3, 0);
+                            let variant = match old {
+                                EntitySpec::Msd(..) => 0,
+                                EntitySpec::Csd(..) => 1,
+                                EntitySpec::Cdb(..) => 2,
+                                EntitySpec::Ctx(..) => 3,
+                                EntitySpec::Cbt(..) => 4,
+                            };
+                            EntitySpec::Cbt(n[0], n[1], n[2]).with_variant(variant, 0)
+                        }
+                        EntityEdit::Set(n) => n.clone(),
+                    };
+                    SigSpec::Multi(new, sig.clone())
+                }
+                SigSpec::Genesis(g) => SigSpec::Genesis(edit_str(g, &StrEdit::Set(hex::encode([7u8; 64])))),
+            }
+        }
+        Change::MultiSig(m) => {
+            s.sig = match &s.sig {
+                SigSpec::Multi(e, _) => SigSpec::Multi(e.clone(), m.clone()),
+                SigSpec::Genesis(_) => SigSpec::Multi(EntitySpec::Msd(s.epoch), m.clone()),
+            }
+        }
+        Change::GenesisSig(g) | Change::ToGenesis(g) => s.sig = SigSpec::Genesis(g.clone()),
+        Change::ToMulti(e, m) => s.sig = SigSpec::Multi(e.clone(), m.clone()),
+    }
+    s
+}
+
+/// canonical, harness-side value of every hashed field (None = a pool string does not decode)
+fn canon(s: &CertSpec) -> Option<BTreeMap<&'static str, String>> {
+    let c = s.certificate().ok()?;
+    let mut m = BTreeMap::new();
+    m.insert("previous_hash", s.previous_hash.clone());
+    m.insert("epoch", s.epoch.to_string());
+    m.insert("metadata.network", s.network.clone());
+    m.insert("metadata.version", s.version.clone());
+    m.insert("metadata.parameters.k", s.params.k.to_string());
+    m.insert("metadata.parameters.m", s.params.m.to_string());
+    m.insert("metadata.parameters.phi_f", format!("{:?}", phi_fixed(s.params.phi())));
+    m.insert("metadata.initiated_at", s.initiated_ns.to_string());
+    m.insert("metadata.sealed_at", s.sealed_ns.to_string());
+    m.insert("metadata.signers", serde_json::to_string(&s.signers).ok()?);
+    m.insert("protocol_message", serde_json::to_string(&s.parts_map().iter().map(|(k, v)| (k.to_string(), v.clone())).collect::<Vec<_>>()).ok()?);
+    m.insert("signed_message", s.effective_signed_message());
+    m.insert("aggregate_verification_key", c.aggregate_verification_key.to_json_hex().ok()?);
+    match &c.signature {
+        CertificateSignature::GenesisSignature(g) => {
+            m.insert("signature.kind", "genesis".into());
+            m.insert("signed_entity_type", "-".into());
+            m.insert("signature", g.to_bytes_hex().ok()?);
+        }
+        CertificateSignature::MultiSignature(e, sig) => {
+            m.insert("signature.kind", "multi".into());
+            m.insert("signed_entity_type", format!("{:?}", EntitySpec::of(e)));
+            m.insert("signature", sig.to_json_hex().ok()?);
+        }
+    }
+    Some(m)
+}
+
+fn sig_kind(s: &CertSpec) -> &'static str {
+    match &s.sig {
+        SigSpec::Genesis(_) => "genesis",
+        SigSpec::Multi(e, _) => e.name(),
+    }
+}
+
+/// the two pair classes of the known finding (equal numbers, discriminant not hashed)
+fn known_entity_class(a: &EntitySpec, b: &EntitySpec) -> Option<&'static str> {
+    match (a, b) {
+        (EntitySpec::Msd(x), EntitySpec::Csd(y)) | (EntitySpec::Csd(x), EntitySpec::Msd(y)) if x == y => Some(KEY_MSD_CSD),
+        (EntitySpec::Ctx(x, n), EntitySpec::Cdb(y, o)) | (EntitySpec::Cdb(x, n), EntitySpec::Ctx(y, o)) if x == y && n == o => Some(KEY_CTX_CDB),
+        _ => None,
+    }
+}
+
+#[derive(Clone, Debug, Serialize, Deserialize)]
+pub struct FieldCase {
+    pub base: CertSpec,
+    pub change: Change,
+}
+
+fn field_case(c: &FieldCase, known_open: &[bool; 2]) -> Report {
+    let mut rep = Report::new();
+    let changed = apply(&c.base, &c.change);
+    let (Some(f0), Some(f1)) = (canon(&c.base), canon(&changed)) else {
+        rep.discard("a pool string does not decode");
+        return rep;
+    };
+    let diff: Vec<&'static str> = f0.keys().filter(|k| f0[*k] != f1[*k]).copied().collect();
+    let diff: Vec<&'static str> = if diff.contains(&"signature.kind") { vec!["signature.kind"] } else { diff };
+    rep.label(format!("change:{}", change_name(&c.change)));
+    if diff.is_empty() {
+        rep.label("no-effective-change");
+        if let Change::Phi(_) = c.change {
+            // equal at the fixed-point precision: the statement requires nothing (recorded only)
+            let same = c.base.certificate().ok().and_then(|x| x.try_compute_hash().ok()) == changed.certificate().ok().and_then(|x| x.try_compute_hash().ok());
+            rep.label(if same { "phi-equal-at-precision:same-hash" } else { "phi-equal-at-precision:other-hash" });
+        }
+        return rep;
+    }
+    if diff.len() != 1 {
+        rep.discard(format!("change touched several fields: {diff:?}"));
+        return rep;
+    }
+    let field = diff[0];
+    rep.label(format!("field:{field}"));
+    rep.label(format!("sig:{}", sig_kind(&c.base)));
+    let value_class = if f0[field].is_empty() || f1[field].is_empty() {
+        "empty"
+    } else if f0[field].starts_with(f1[field].as_str()) || f1[field].starts_with(f0[field].as_str()) {
+        "prefix"
+    } else if f0[field].len() == f1[field].len() {
+        "same-len"
+    } else {
+        "other"
+    };
+    let mut known_key = None;
+    if field == "signed_entity_type" {
+        if let (SigSpec::Multi(a, _), SigSpec::Multi(b, _)) = (&c.base.sig, &changed.sig) {
+            rep.label(format!("entity-pair:{}->{}", a.name(), b.name()));
+            rep.label(if a.numbers() == b.numbers() || a.numbers().starts_with(&b.numbers()) || b.numbers().starts_with(&a.numbers()) { "entity:same-numbers" } else { "entity:other-numbers" });
+            known_key = known_entity_class(a, b);
+        }
+    }
+    rep.nontrivial(format!("{field}|{}|{}|{value_class}", change_name(&c.change), sig_kind(&changed)));
+    if let Some(k) = known_key {
+        rep.label(format!("known-class:{k}"));
+        let idx = if k == KEY_MSD_CSD { 0 } else { 1 };
+        if known_open[idx] {
+            rep.excluded_known(k);
+            return rep;
+        }
+    }
+    let h0 = c.base.certificate().map_err(|e| e.to_string()).and_then(|x| x.try_compute_hash().map_err(|e| e.to_string()));
+    let h1 = changed.certificate().map_err(|e| e.to_string()).and_then(|x| x.try_compute_hash().map_err(|e| e.to_string()));
+    match (h0, h1) {
+        (Ok(a), Ok(b)) => {
+            if a == b {
+                let key = known_key.map(String::from).unwrap_or_else(|| format!("hash-collision:{field}"));
+                rep.violation(key, format!("field `{field}` changed from {:.200?} to {:.200?} but both certificates hash to {a}", f0[field], f1[field]));
+            }
+        }
+        (a, b) => {
+            rep.discard(format!("hash not computable: {a:?} / {b:?}"));
+        }
+    }
+    rep
+}
+
+// ------------------------------------------------------------------------------------------------------------------
+// protocol message pairs
+// ------------------------------------------------------------------------------------------------------------------
+
+#[derive(Clone, Debug, Serialize, Deserialize)]
+pub enum Move {
+    /// move `n` characters from the end of part `at` to the start of the next part (or back)
+    Boundary { at: u16, n: u8, forward: bool },
+    Drop { at: u16 },
+    Add { key: u8, value: String },
+    Swap { a: u16, b: u16 },
+    Rekey { at: u16, key: u8 },
+    /// remove the next part and append its value to part `at`
+    Merge { at: u16 },
+    /// split the last `n` characters of part `at` off into a new part under `key`
+    Split { at: u16, n: u8, key: u8 },
+    Replace { at: u16, value: String },
+}
+
+#[derive(Clone, Debug, Serialize, Deserialize)]
+pub struct MsgCase {
+    pub parts: Vec<(u8, String)>,
+    pub mv: Move,
+}
+
+fn msg_case_strategy(pool: Arc<Strings>) -> impl Strategy<Value = MsgCase> {
+    let p1 = pool.clone();
+    let p2 = pool.clone();
+    (
+        parts_strategy(pool),
+        prop_oneof![
+            4 => (any::<u16>(), prop_oneof![Just(2u8), Just(4u8), 1u8..10, Just(64u8)], any::<bool>()).prop_map(|(at, n, forward)| Move::Boundary { at, n, forward }),
+            1 => any::<u16>().prop_map(|at| Move::Drop { at }),
+            1 => (0u8..ALL_KEYS.len() as u8).prop_flat_map(move |key| part_value(key, p1.clone()).prop_map(move |value| Move::Add { key, value })),
+            2 => (any::<u16>(), any::<u16>()).prop_map(|(a, b)| Move::Swap { a, b }),
+            2 => (any::<u16>(), 0u8..ALL_KEYS.len() as u8).prop_map(|(at, key)| Move::Rekey { at, key }),
+            2 => any::<u16>().prop_map(|at| Move::Merge { at }),
+            2 => (any::<u16>(), prop_oneof![Just(2u8), 1u8..20, Just(64u8)], 0u8..ALL_KEYS.len() as u8).prop_map(|(at, n, key)| Move::Split { at, n, key }),
+            1 => (any::<u16>(), 0u8..ALL_KEYS.len() as u8).prop_flat_map(move |(at, key)| part_value(key, p2.clone()).prop_map(move |value| Move::Replace { at, value })),
+        ],
+    )
+        .prop_map(|(parts, mv)| MsgCase { parts, mv })
+}
+
+fn message_of(parts: &BTreeMap<u8, String>) -> ProtocolMessage {
+    let mut pm = ProtocolMessage::new();
+    for (k, v) in parts {
+        pm.set_message_part(ALL_KEYS[*k as usize % ALL_KEYS.len()], v.clone());
+    }
+    pm
+}
+
+fn move_name(m: &Move) -> String {
+    let s = format!("{m:?}");
+    s.split([' ', '{', '(']).next().unwrap_or("").to_string()
+}
+
+fn msg_case(c: &MsgCase) -> Report {
+    let mut rep = Report::new();
+    // BTreeMap over the key INDEX: the protocol message orders by the enum, i.e. by the same index
+    let m1: BTreeMap<u8, String> = c.parts.iter().map(|(k, v)| (*k % ALL_KEYS.len() as u8, v.clone())).collect();
+    let mut m2 = m1.clone();
+    let keys: Vec<u8> = m1.keys().copied().collect();
+    rep.label(format!("move:{}", move_name(&c.mv)));
+    let n_parts = keys.len();
+    match &c.mv {
+        Move::Boundary { at, n, forward } => {
+            if n_parts < 2 {
+                rep.discard("needs two parts");
+                return rep;
+            }
+            let i = pick_index(*at, n_parts - 1);
+            let (ka, kb) = (keys[i], keys[i + 1]);
+            let (mut a, mut b) = (m1[&ka].clone(), m1[&kb].clone());
+            if *forward {
+                let n = (*n as usize).min(a.len());
+                let tail = a.split_off(a.len() - n);
+                b = format!("{tail}{b}");
+            } else {
+                let n = (*n as usize).min(b.len());
+                let rest = b.split_off(n);
+                a = format!("{a}{b}");
+                b = rest;
+            }
+            m2.insert(ka, a);
+            m2.insert(kb, b);
+        }
+        Move::Drop { at } => {
+            if n_parts == 0 {
+                rep.discard("empty message");
+                return rep;
+            }
+            m2.remove(&keys[pick_index(*at, n_parts)]);
+        }
+        Move::Add { key, value } => {
+            m2.insert(*key, value.clone());
+        }
+        Move::Swap { a, b } => {
+            if n_parts < 2 {
+                rep.discard("needs two parts");
+                return rep;
+            }
+            let (i, j) = (pick_index(*a, n_parts), pick_index(*b, n_parts));
+            let (va, vb) = (m1[&keys[i]].clone(), m1[&keys[j]].clone());
+            m2.insert(keys[i], vb);
+            m2.insert(keys[j], va);
+        }
+        Move::Rekey { at, key } => {
+            if n_parts == 0 {
+                rep.discard("empty message");
+                return rep;
+            }
+            let k = keys[pick_index(*at, n_parts)];
+            let v = m2.remove(&k).unwrap();
+            m2.insert(*key, v);
+        }
+        Move::Merge { at } => {
+            if n_parts < 2 {
+                rep.discard("needs two parts");
+                return rep;
+            }
+            let i = pick_index(*at, n_parts - 1);
+            let v = m2.remove(&keys[i + 1]).unwrap();
+            m2.get_mut(&keys[i]).unwrap().push_str(&v);
+        }
+        Move::Split { at, n, key } => {
+            if n_parts == 0 {
+                rep.discard("empty message");
+                return rep;
+            }
+            let k = keys[pick_index(*at, n_parts)];
+            let mut v = m1[&k].clone();
+            let n = (*n as usize).min(v.len().saturating_sub(1));
+            let tail = v.split_off(v.len() - n);
+            m2.insert(k, v);
+            m2.insert(*key, tail);
+        }
+        Move::Replace { at, value } => {
+            if n_parts == 0 {
+                m2.insert(0, value.clone());
+            } else {
+                m2.insert(keys[pick_index(*at, n_parts)], value.clone());
+            }
+        }
+    }
+    let wf = |m: &BTreeMap<u8, String>| m.iter().all(|(k, v)| well_formed(*k, v));
+    if !wf(&m1) {
+        rep.discard("base outside the grammar");
+        return rep;
+    }
+    if !wf(&m2) {
+        // the moved pair left the honest value grammar: outside the statement (counted, not a discard of the generator's
+        // budget: the base was fine) — still nothing is claimed
+        rep.label("moved-outside-grammar");
+        return rep;
+    }
+    if m1 == m2 {
+        rep.label("equal-messages");
+        return rep;
+    }
+    let (h1, h2) = (message_of(&m1).compute_hash(), message_of(&m2).compute_hash());
+    let shared = m1.keys().filter(|k| m2.contains_key(*k)).count();
+    rep.nontrivial(format!("{}|{}|{}|{}", move_name(&c.mv), m1.len(), m2.len(), shared));
+    if h1 == h2 {
+        rep.violation(format!("protocol-message-collision:{}", move_name(&c.mv)), format!("{m1:?} and {m2:?} are different but both digest to {h1}"));
+    }
+    rep
+}
+
+// ------------------------------------------------------------------------------------------------------------------
+// wire round trip
+// ------------------------------------------------------------------------------------------------------------------
+
+#[derive(Clone, Debug, Serialize, Deserialize)]
+pub struct Reser {
+    /// 0 = keep the serialiser's order, otherwise the seed of a permutation of every object's fields
+    pub perm: u64,
+    /// 0 compact, 1 spaced, 2 pretty, 3 random white space
+    pub ws: u8,
+    /// bit 0: `ancillary_prover_data: null`, bit 1: `ancillary_verifier_data: null`, bit 2: explicit default
+    /// `hash_scheme: "legacy"`
+    pub opt: u8,
+    /// phi_f as 0 shortest, 1 exponent form, 2 seventeen significant digits, 3 exact decimal expansion / integer
+    pub num: u8,
+    /// strings 0 as serde_json, 1 non-ASCII as \uXXXX, 2 everything as \uXXXX, 3 `\/`
+    pub esc: u8,
+}
+
+fn reser_strategy() -> impl Strategy<Value = Reser> {
+    (prop_oneof![1 => Just(0u64), 3 => any::<u64>()], 0u8..4, 0u8..8, 0u8..4, 0u8..4).prop_map(|(perm, ws, opt, num, esc)| Reser { perm, ws, opt, num, esc })
+}
+
+struct Emitter<'a> {
+    r: &'a Reser,
+    phi: f64,
+    counter: u64,
+    out: String,
+}
+
+impl Emitter<'_> {
+    fn next(&mut self) -> u64 {
+        self.counter += 1;
+        mix(self.r.perm, self.counter)
+    }
+    fn gap(&mut self, depth: usize, structural: bool) {
+        match self.r.ws {
+            0 => {}
+            1 => {
+                if !structural {
+                    self.out.push(' ')
+                }
+            }
+            2 => {
+                if structural {
+                    self.out.push('\n');
+                    for _ in 0..depth {
+                        self.out.push_str("  ");
+                    }
+                } else {
+                    self.out.push(' ');
+                }
+            }
+            _ => {
+                let n = self.next();
+                self.out.push_str(["", " ", "\n", "\t", "\r\n", "  \n "][(n % 6) as usize]);
+            }
+        }
+    }
+    fn string(&mut self, s: &str) {
+        match self.r.esc {
+            0 => self.out.push_str(&serde_json::to_string(s).unwrap()),
+            mode => {
+                self.out.push('"');
+                for ch in s.chars() {
+                    let plain = ch.is_ascii() && !ch.is_ascii_control() && ch != '"' && ch != '\\';
+                    if mode == 3 && ch == '/' {
+                        self.out.push_str("\\/");
+                    } else if plain && mode != 2 {
+                        self.out.push(ch);
+                    } else if mode == 3 && !ch.is_ascii() {
+                        self.out.push(ch);
+                    } else {
+                        let mut buf = [0u16; 2];
+                        for u in ch.encode_utf16(&mut buf) {
+                            self.out.push_str(&format!("\\u{u:04x}"));
+                        }
+                    }
+                }
+                self.out.push('"');
+            }
+        }
+    }
+    fn emit(&mut self, v: &Value, path: &str, depth: usize) {
+        match v {
+            Value::Null => self.out.push_str("null"),
+            Value::Bool(b) => self.out.push_str(if *b { "true" } else { "false" }),
+            Value::Number(n) => {
+                if path.ends_with(".phi_f") {
+                    let p = self.phi;
+                    let txt = match self.r.num {
+                        0 => serde_json::to_string(&p).unwrap(),
+                        1 => format!("{p:e}"),
+                        2 => format!("{p:.16e}"),
+                        _ => {
+                            if p == 1.0 {
+                                "1".to_string()
+                            } else {
+                                let t = format!("{p:.1100}");
+                                let t = t.trim_end_matches('0');
+                                if t.ends_with('.') { format!("{t}0") } else { t.to_string() }
+                            }
+                        }
+                    };
+                    self.out.push_str(&txt);
+                } else {
+                    self.out.push_str(&n.to_string());
+                }
+            }
+            Value::String(s) => self.string(s),
+            Value::Array(a) => {
+                self.out.push('[');
+                for (i, x) in a.iter().enumerate() {
+                    if i > 0 {
+                        self.out.push(',');
+                    }
+                    self.gap(depth + 1, true);
+                    self.emit(x, &format!("{path}[]"), depth + 1);
+                }
+                if !a.is_empty() {
+                    self.gap(depth, true);
+                }
+                self.out.push(']');
+            }
+            Value::Object(o) => {
+                let mut entries: Vec<(String, Value)> = o.iter().map(|(k, v)| (k.clone(), v.clone())).collect();
+                if path.is_empty() {
+                    if self.r.opt & 1 != 0 && !o.contains_key("ancillary_prover_data") {
+                        entries.push(("ancillary_prover_data".into(), Value::Null));
+                    }
+                    if self.r.opt & 2 != 0 && !o.contains_key("ancillary_verifier_data") {
+                        entries.push(("ancillary_verifier_data".into(), Value::Null));
+                    }
+                }
+                if path == ".protocol_message" && self.r.opt & 4 != 0 && !o.contains_key("hash_scheme") {
+                    entries.push(("hash_scheme".into(), Value::String("legacy".into())));
+                }
+                if self.r.perm != 0 {
+                    for i in (1..entries.len()).rev() {
+                        let j = (self.next() % (i as u64 + 1)) as usize;
+                        entries.swap(i, j);
+                    }
+                }
+                self.out.push('{');
+                for (i, (k, x)) in entries.iter().enumerate() {
+                    if i > 0 {
+                        self.out.push(',');
+                    }
+                    self.gap(depth + 1, true);
+                    self.string(k);
+                    self.gap(depth + 1, false);
+                    self.out.push(':');
+                    self.gap(depth + 1, false);
+                    self.emit(x, &format!("{path}.{k}"), depth + 1);
+                }
+                if !entries.is_empty() {
+                    self.gap(depth, true);
+                }
+                self.out.push('}');
+            }
+        }
+    }
+}
+
+fn reserialise(v: &Value, r: &Reser, phi: f64) -> String {
+    let mut e = Emitter { r, phi, counter: 0, out: String::new() };
+    e.gap(0, false);
+    e.emit(v, "", 0);
+    e.gap(0, false);
+    e.out
+}
+
+struct NoRetriever;
+
+#[async_trait]
+impl CertificateRetriever for NoRetriever {
+    async fn get_certificate_details(&self, hash: &str) -> Result<Certificate, CertificateRetrieverError> {
+        Err(CertificateRetrieverError(anyhow::anyhow!("no certificate {hash}")))
+    }
+}
+
+/// the real verifier's verdict on (certificate, given previous certificate): "ok" or the error chain
+fn real_verdict(c: &Certificate, prev: &Certificate, gv: &GenesisVerifier) -> String {
+    let logger = slog::Logger::root(slog::Discard, slog::o!());
+    let verifier = MithrilCertificateVerifier::new(logger, Arc::new(NoRetriever), Arc::new(gv.clone()));
+    let rt = tokio::runtime::Builder::new_current_thread().enable_all().build().expect("runtime");
+    let r = catch(|| {
+        rt.block_on(async {
+            if c.is_genesis() { verifier.verify_genesis_certificate(c).await } else { verifier.verify_standard_certificate(c, prev).await }
+        })
+    });
+    match r {
+        Ok(Ok(())) => "ok".to_string(),
+        Ok(Err(e)) => format!("err: {e:#}"),
+        Err(p) => format!("panic: {p}"),
+    }
+}
+
+/// harness-side integrity bits: hash matches, signed message matches, epoch inside the message, signature valid
+fn integrity_bits(c: &Certificate, gv: &GenesisVerifier) -> String {
+    let hash_ok = c.try_compute_hash().map(|h| h == c.hash).unwrap_or(false);
+    let msg_ok = c.protocol_message.compute_hash() == c.signed_message;
+    let epoch_ok = c.protocol_message.get_message_part(&ProtocolMessagePartKey::CurrentEpoch).map(|e| *e == c.epoch.0.to_string()).unwrap_or(false);
+    let sig_ok = match &c.signature {
+        CertificateSignature::GenesisSignature(s) => gv.to_ed25519_verification_key().verify_strict(c.signed_message.as_bytes(), s).is_ok(),
+        CertificateSignature::MultiSignature(_, s) => {
+            let p = &c.metadata.protocol_parameters;
+            catch(|| s.verify(c.signed_message.as_bytes(), &c.create_aggregate_verification_key(), &mithril_stm::Parameters { m: p.m, k: p.k, phi_f: p.phi_f }, None, None).is_ok())
+                .unwrap_or(false)
+        }
+    };
+    format!("hash={hash_ok} msg={msg_ok} epoch={epoch_ok} sig={sig_ok}")
+}
+
+#[derive(Clone, Debug, Serialize, Deserialize)]
+pub enum Src {
+    /// certificate `idx` of the honest context chain, optionally with one field changed (and re-hashed or not)
+    Chain { idx: u16, change: Option<Change>, rehash: bool },
+    /// a free, field-by-field certificate (verified against certificate `prev` of the context chain)
+    Free { spec: CertSpec, rehash: bool },
+}
+
+#[derive(Clone, Debug, Serialize, Deserialize)]
+pub struct WireCase {
+    pub ctx: ChainSpec,
+    pub src: Src,
+    pub prev: u16,
+    pub reser: Reser,
+}
+
+fn verdict_class(v: &str) -> String {
+    v.split(':').take(2).collect::<Vec<_>>().join(":").chars().take(60).collect()
+}
+
+fn wire_case(c: &WireCase) -> Report {
+    let mut rep = Report::new();
+    let Some(built) = chain_cached(&c.ctx) else {
+        rep.discard("context chain does not build");
+        return rep;
+    };
+    let (cert0, src_name) = match &c.src {
+        Src::Chain { idx, change, rehash } => {
+            let base = &built.certs[pick_index(*idx, built.certs.len())];
+            match change {
+                None => (base.clone(), "chain"),
+                Some(ch) => {
+                    let spec = apply(&CertSpec::of(base), ch);
+                    let Ok(mut x) = spec.certificate() else {
+                        rep.discard("a pool string does not decode");
+                        return rep;
+                    };
+                    if *rehash {
+                        certs::rehash(&mut x);
+                    }
+                    (x, if *rehash { "chain+change+rehash" } else { "chain+change" })
+                }
+            }
+        }
+        Src::Free { spec, rehash } => {
+            let Ok(mut x) = spec.certificate() else {
+                rep.discard("a pool string does not decode");
+                return rep;
+            };
+            if *rehash {
+                certs::rehash(&mut x);
+            }
+            (x, "free")
+        }
+    };
+    let prev = built.certs.iter().find(|p| p.hash == cert0.previous_hash).unwrap_or(&built.certs[pick_index(c.prev, built.certs.len())]).clone();
+    let gv = &built.genesis_verifier;
+    let verdict0 = real_verdict(&cert0, &prev, gv);
+    let bits0 = integrity_bits(&cert0, gv);
+    let hash0 = cert0.try_compute_hash().unwrap_or_else(|e| format!("error {e}"));
+    let kind = if cert0.is_genesis() { "genesis".to_string() } else { EntitySpec::of(&cert0.signed_entity_type()).name().to_string() };
+    let reser_class = format!("perm{}ws{}opt{}num{}esc{}", (c.reser.perm != 0) as u8, c.reser.ws, c.reser.opt, c.reser.num, c.reser.esc);
+    rep.label(format!("src:{src_name}"));
+    rep.label(format!("kind:{kind}"));
+    rep.label(format!("verdict:{}", verdict_class(&verdict0)));
+    for (name, v) in [("perm", (c.reser.perm != 0) as u8), ("ws", c.reser.ws), ("opt", c.reser.opt), ("num", c.reser.num), ("esc", c.reser.esc)] {
+        rep.label(format!("reser:{name}{v}"));
+    }
+    if verdict0 == "ok" {
+        rep.label("verdict-ok");
+    }
+    rep.nontrivial(format!("{src_name}|{kind}|{reser_class}|{}", verdict_class(&verdict0)));
+
+    let msg = match CertificateMessage::try_from(cert0.clone()) {
+        Ok(m) => m,
+        Err(e) => {
+            rep.violation("roundtrip:to-message-fails", format!("Certificate -> CertificateMessage failed: {e:#}"));
+            return rep;
+        }
+    };
+    let text = match serde_json::to_string(&msg) {
+        Ok(t) => t,
+        Err(e) => {
+            rep.violation("roundtrip:to-json-fails", format!("CertificateMessage -> JSON failed: {e}"));
+            return rep;
+        }
+    };
+    let value: Value = match serde_json::from_str(&text) {
+        Ok(v) => v,
+        Err(e) => {
+            rep.violation("roundtrip:own-json-unparsable", format!("serialised message is not JSON: {e}"));
+            return rep;
+        }
+    };
+    // two paths: the serialiser's own text, and the re-serialised text
+    for (path, txt) in [("direct", text.clone()), ("reserialised", reserialise(&value, &c.reser, cert0.metadata.protocol_parameters.phi_f))] {
+        let msg2: CertificateMessage = match serde_json::from_str(&txt) {
+            Ok(m) => m,
+            Err(e) => {
+                rep.violation(format!("roundtrip:json-rejected:{path}"), format!("{path} text rejected ({e}); reser={:?}; text={:.300}", c.reser, txt));
+                return rep;
+            }
+        };
+        let cert2 = match Certificate::try_from(msg2) {
+            Ok(x) => x,
+            Err(e) => {
+                rep.violation(format!("roundtrip:conversion-fails:{path}"), format!("CertificateMessage -> Certificate failed: {e:#}"));
+                return rep;
+            }
+        };
+        if cert2.hash != cert0.hash {
+            rep.violation(format!("roundtrip:stored-hash-changed:{path}"), format!("hash field {} -> {}", cert0.hash, cert2.hash));
+        }
+        let hash2 = cert2.try_compute_hash().unwrap_or_else(|e| format!("error {e}"));
+        if hash2 != hash0 {
+            let f0 = canon(&CertSpec::of(&cert0));
+            let f2 = canon(&CertSpec::of(&cert2));
+            let diff: Vec<String> = match (f0, f2) {
+                (Some(a), Some(b)) => a.keys().filter(|k| a[*k] != b[*k]).map(|k| format!("{k}: {:.80} -> {:.80}", a[k], b[k])).collect(),
+                _ => vec![],
+            };
+            let field = diff.first().map(|d| d.split(':').next().unwrap_or("").to_string()).unwrap_or_default();
+            rep.violation(
+                format!("roundtrip:hash-changed:{path}:{field}"),
+                format!("recomputed hash {hash0} -> {hash2} after the {path} round trip; differing fields {diff:?}; phi_f={:e} reser={:?}", cert0.metadata.protocol_parameters.phi_f, c.reser),
+            );
+        }
+        if cert2.signed_message != cert0.signed_message {
+            rep.violation(format!("roundtrip:signed-message-changed:{path}"), format!("{} -> {}", cert0.signed_message, cert2.signed_message));
+        }
+        let verdict2 = real_verdict(&cert2, &prev, gv);
+        if verdict2 != verdict0 {
+            rep.violation(format!("roundtrip:verdict-changed:{path}"), format!("verifier verdict `{verdict0}` -> `{verdict2}`"));
+        }
+        let bits2 = integrity_bits(&cert2, gv);
+        if bits2 != bits0 {
+            rep.violation(format!("roundtrip:integrity-changed:{path}"), format!("`{bits0}` -> `{bits2}`"));
+        }
+    }
+    rep
+}
+
+// ------------------------------------------------------------------------------------------------------------------
+// run
+// ------------------------------------------------------------------------------------------------------------------
+
+fn witness_pair(a: EntitySpec, b: EntitySpec, msig: &str, avk: &str) -> bool {
+    let base = CertSpec {
+        hash: String::new(),
+        previous_hash: hex_digest(1),
+        epoch: 7,
+        network: "testnet".into(),
+        version: "0.1.0".into(),
+        params: PSpec::new(5, 100, 0.65),
+        initiated_ns: 1_707_743_507_012_304_300,
+        sealed_ns: 1_707_743_607_012_304_300,
+        signers: vec![("pool1".into(), 10)],
+        parts: vec![(5, "7".into())],
+        signed_message: None,
+        avk: avk.to_string(),
+        sig: SigSpec::Multi(a, msig.to_string()),
+    };
+    let mut other = base.clone();
+    if let SigSpec::Multi(_, s) = &base.sig {
+        other.sig = SigSpec::Multi(b, s.clone());
+    }
+    let h0 = base.certificate().expect("witness certificate").try_compute_hash().expect("hash");
+    let h1 = other.certificate().expect("witness certificate").try_compute_hash().expect("hash");
+    h0 == h1
+}
 
 pub fn run(args: &Args) -> i32 {
-    let check = Check::new("C04", "exploration", args);
-    check.inconclusive("check not implemented yet".into());
+    let mut check = Check::new("C04", "exploration", args);
+    check
+        .rule(
+            "single-field: a field-by-field certificate and ONE generated change; non-trivial = exactly one hashed field differs on the harness-side canonical form \
+             (phi at U8F24, keys/signatures by canonical encoding), field other than `hash`; distinct by (field, change kind, signature/entity variant, value class). \
+             protocol-message-pairs: both messages inside the honest grammar and different as maps; distinct by (move, sizes, shared keys). \
+             wire-roundtrip: every case (two paths: serialiser text and re-serialised text); distinct by (source, signature/entity variant, re-serialisation class, verdict class)",
+        )
+        .assume("SHA-256 collision-free; hex / JSON codecs of keys and signatures trusted (C05); STM verify and Ed25519 verify trusted primitives (C01)")
+        .assume("timestamps representable as i64 nanoseconds; phi_f in (0,1]; ancillary prover/verifier data are uninhabited types without the `future_snark` feature, so they are always absent (absent vs null is exercised on the wire)")
+        .assume("protocol message values inside the honest grammar: lower-case hex of a non-empty byte string for digests/keys, canonical decimal u64 for numbers")
+        .require_label("field:previous_hash")
+        .require_label("field:epoch")
+        .require_label("field:metadata.network")
+        .require_label("field:metadata.version")
+        .require_label("field:metadata.parameters.k")
+        .require_label("field:metadata.parameters.m")
+        .require_label("field:metadata.parameters.phi_f")
+        .require_label("field:metadata.initiated_at")
+        .require_label("field:metadata.sealed_at")
+        .require_label("field:metadata.signers")
+        .require_label("field:protocol_message")
+        .require_label("field:signed_message")
+        .require_label("field:aggregate_verification_key")
+        .require_label("field:signed_entity_type")
+        .require_label("field:signature")
+        .require_label("field:signature.kind")
+        .require_label("entity:same-numbers")
+        .require_label("move:Boundary")
+        .require_label("verdict-ok")
+        .require_label("kind:genesis")
+        .require_label("src:free");
+    let t = check.tier;
+    let known_open = [check.has_open_known(KEY_MSD_CSD), check.has_open_known(KEY_CTX_CDB)];
+
+    // per-run pool of honest chains: real keys / signatures and verification contexts
+    let pool_chains: Vec<ChainSpec> = if check.is_replay() { vec![] } else { chain_pool(check.seed, t.pick(10, 40) as usize, 3, check.threads) };
+    let mut strings = Strings::default();
+    for spec in &pool_chains {
+        if let Some(b) = chain_cached(spec) {
+            for c in &b.certs {
+                let s = CertSpec::of(c);
+                strings.avks.push(s.avk.clone());
+                match s.sig {
+                    SigSpec::Genesis(g) => strings.gsigs.push(g),
+                    SigSpec::Multi(_, m) => strings.msigs.push(m),
+                }
+            }
+        }
+    }
+    strings.avks.sort();
+    strings.avks.dedup();
+    strings.msigs.truncate(64);
+    if !check.is_replay() && (strings.avks.is_empty() || strings.msigs.is_empty() || strings.gsigs.is_empty()) {
+        check.inconclusive("fixture pool is empty".into());
+        return check.finish();
+    }
+    if check.is_replay() {
+        // strategies are not used in replay mode, but they must be constructible
+        strings.avks.push(synthetic_avk(1, 1, 1));
+        strings.msigs.push(String::new());
+        strings.gsigs.push(hex::encode([0u8; 64]));
+    }
+    let pool = Arc::new(strings);
+
+    {
+        let pool = pool.clone();
+        check.section(
+            "single-field",
+            move || (cert_spec_strategy(pool.clone()), change_strategy(pool.clone())).prop_map(|(base, change)| FieldCase { base, change }),
+            t.pick(6000, 300_000),
+            |c: &FieldCase| field_case(c, &known_open),
+        );
+    }
+    {
+        let pool = pool.clone();
+        check.section("protocol-message-pairs", move || msg_case_strategy(pool.clone()), t.pick(4000, 200_000), msg_case);
+    }
+    {
+        let pool = pool.clone();
+        let chains = if pool_chains.is_empty() { vec![vcore::sample_one(&chain_strategy(2), 1)] } else { pool_chains.clone() };
+        check.section(
+            "wire-roundtrip",
+            move || {
+                let pool = pool.clone();
+                (
+                    prop::sample::select(chains.clone()),
+                    prop_oneof![
+                        2 => any::<u16>().prop_map(|idx| Src::Chain { idx, change: None, rehash: false }),
+                        2 => (any::<u16>(), change_strategy(pool.clone()), any::<bool>()).prop_map(|(idx, ch, rehash)| Src::Chain { idx, change: Some(ch), rehash }),
+                        3 => (cert_spec_strategy(pool.clone()), prop::bool::weighted(0.7)).prop_map(|(spec, rehash)| Src::Free { spec, rehash }),
+                    ],
+                    any::<u16>(),
+                    reser_strategy(),
+                )
+                    .prop_map(|(ctx, src, prev, reser)| WireCase { ctx, src, prev, reser })
+            },
+            t.pick(3000, 100_000),
+            wire_case,
+        );
+    }
+
+    // dedicated reproduction of the known collision classes (real key and signature from the pool)
+    if !check.is_replay() {
+        let (msig, avk) = (pool.msigs[0].clone(), pool.avks[0].clone());
+        let (m2, a2) = (msig.clone(), avk.clone());
+        check.witness(KEY_MSD_CSD, "MithrilStakeDistribution(e) and CardanoStakeDistribution(e) certificates collide", move || {
+            witness_pair(EntitySpec::Msd(7), EntitySpec::Csd(7), &msig, &avk)
+        });
+        check.witness(KEY_CTX_CDB, "CardanoTransactions(e,n) and CardanoDatabase(e,n) certificates collide", move || {
+            witness_pair(EntitySpec::Ctx(7, 4242), EntitySpec::Cdb(7, 4242), &m2, &a2)
+        });
+    }
     check.finish()
 }
